@@ -78,7 +78,8 @@ def short_rule(rep, prog, nbytes_list):
             kinds[k] = kinds.get(k, 0) + 1
         rep.instance(rid, "N=%d|errors" % nb, sample={"N": nb, "accepted_paths": len(oks), "error_kinds": kinds})
         if run.unsummarised:
-            rep.violation("AI", "unsummarised-callees", "decode analysis met unsummarised callees: %s" % sorted(run.unsummarised))
+            from .common import unsummarised_policy
+            unsummarised_policy(rep, run.unsummarised, "decode analysis")
 
 
 def rejection_rule(rep, prog, oks, errs):
@@ -125,8 +126,9 @@ def run(rep, tier, replay=None):
         short_rule(rep, prog, [0, 1, 4, 6, 7, 13])
     else:
         short_rule(rep, prog, [n for n in range(0, 14)])
-        run16, oks16, errs16 = decode_paths(prog, 16)
-        length_rule(rep, prog, 16, oks16)
+    # a buffer with two trailing bytes: the frame and its checksum must not depend on them (read_to_end pulls them into the cache)
+    run16, oks16, errs16 = decode_paths(prog, 16)
+    length_rule(rep, prog, 16, oks16)
     rep.floor("accepted grammar paths (N=14)", 60, len(oks))
     rep.assume("deku reader/primitive semantics as summarised; Cursor<&[u8]> reads are exact prefixes of the buffer")
     return rep.finish(
